@@ -55,7 +55,20 @@ def pair_rule(ck, P, reader_suffix, name):
     if not ck.anchor("R-COVER-PAIR", name + " open_path + impl", opens + impl, 2):
         return
     b = opens[0]
-    ins = [n for n in ir.walk_nodes(b["body"]) if n.get("k") == "mcall" and n.get("name") == "insert" and ir.place_str(n["recv"]) == "tile_map"]
+    # the map and the pyramid are identified by where they end up: the reader's `tile_map` field and the coverage argument of
+    # TilesReaderParameters::new — not by the names of the locals
+    map_h = pyr_h = None
+    for n in ir.walk_nodes(b["body"]):
+        if n.get("k") == "struct" and (n.get("q") or "").endswith(reader_suffix):
+            for f in n["fields"]:
+                if f["name"] == "tile_map":
+                    map_h = ir.local_hid(f["e"])
+        if n.get("k") == "call" and (n.get("q") or "").endswith("TilesReaderParameters::new") and len(n["a"]) == 3:
+            x = ir.strip(n["a"][2])
+            while x is not None and x.get("k") == "mcall" and x.get("name") in ("clone", "to_owned"):
+                x = ir.strip(x["recv"])
+            pyr_h = ir.local_hid(x)
+    ins = [n for n in ir.walk_nodes(b["body"]) if n.get("k") == "mcall" and n.get("name") == "insert" and map_h is not None and ir.local_hid(n["recv"]) == map_h]
     ck.anchor("R-COVER-PAIR", name + " tile_map.insert sites", ins, 1)
     for k, n in enumerate(ins):
         ch = ir.local_hid(n["a"][0])
@@ -69,16 +82,16 @@ def pair_rule(ck, P, reader_suffix, name):
             if pos_i is None:
                 continue
             for i, s in enumerate(sts):
-                inc = [y for y in _unconditional_nodes(s) if y.get("k") == "mcall" and y.get("name") == "include_coord" and ir.place_str(y["recv"]) == "bbox_pyramid"]
+                inc = [y for y in _unconditional_nodes(s) if y.get("k") == "mcall" and y.get("name") == "include_coord" and pyr_h is not None and ir.local_hid(y["recv"]) == pyr_h]
                 if inc and ir.local_hid(inc[0]["a"][0]) == ch and ch is not None and abs(i - pos_i) <= 2:
                     okp = True
         ck.check(okp, "R-COVER-PAIR", "%s|insert#%d" % (b["q"], k + 1), "tile_map.insert(coord, ..) is paired with bbox_pyramid.include_coord(&coord) of the same binding",
                  "a tile is registered for lookup without being included in the advertised coverage", ir.loc(n))
-    writers = [n for n in ir.walk_nodes(b["body"]) if n.get("k") == "mcall" and ir.place_str(n["recv"]) == "tile_map" and n["recv"].get("ta", "").startswith("&mut") and n["name"] != "insert"]
+    writers = [n for n in ir.walk_nodes(b["body"]) if n.get("k") == "mcall" and map_h is not None and ir.local_hid(n["recv"]) == map_h and n["recv"].get("ta", "").startswith("&mut") and n["name"] != "insert"]
     ck.check(not writers, "R-COVER-PAIR", b["q"] + "|single-writer", "the map is only written by insert", "other writers: %s" % [w["name"] for w in writers], ir.loc(b))
     # the pyramid that was accumulated is the one stored
     st = [n for n in ir.walk_nodes(b["body"]) if n.get("k") == "call" and (n.get("q") or "").endswith("TilesReaderParameters::new")]
-    okst = bool(st) and ir.place_str(st[0]["a"][2]).startswith("bbox_pyramid")
+    okst = bool(st) and pyr_h is not None and any(ir.contains(bb_, lambda y: y.get("k") == "mcall" and y.get("name") == "include_coord" and ir.local_hid(y["recv"]) == pyr_h) for bb_ in [b["body"]])
     ck.check(okst, "R-COVER-PAIR", b["q"] + "|stored", "the accumulated pyramid is what the reader advertises", "advertised pyramid is not the accumulated one", ir.loc(b))
     gtd = P.impl_method(impl[0], "get_tile_data")
     reads = [n for n in ir.walk_nodes(gtd["body"]) if n.get("k") == "mcall" and ir.place_str(n["recv"]) == "self.tile_map"]
@@ -239,8 +252,10 @@ def rules(ck, P):
                         conditional.append("%s <- %s WHERE %s (under `%s` at %s)" % (tgt, agg, where, p_["k"], ir.loc(p_)))
         ck.anchor("R-COVER-MB", "simple_query uses", queries, 8)
         level = [q for q in queries if q[1] and "tile_" in q[1]]
-        ck.check(all("zoom_level = {z}" in q[2] for q in level), "R-COVER-MB", b["q"] + "|level", "every column/row query is restricted to zoom_level = {z}",
-                 "a query is not restricted to the level: %s" % [q for q in level if "zoom_level = {z}" not in q[2]], ir.loc(b))
+        zl = [x["name"] for lp_ in ir.walk_nodes(b["body"]) if lp_.get("k") == "for" for x in ir.pat_binds(lp_["pat"])]
+        zpat = "zoom_level = {%s}" % (zl[0] if zl else "?")
+        ck.check(all(zpat in q[2] for q in level), "R-COVER-MB", b["q"] + "|level", "every column/row query is restricted to the loop's zoom level (%s)" % zpat,
+                 "a query is not restricted to the level: %s" % [q for q in level if zpat not in q[2]], ir.loc(b))
         ck.check(not conditional, "R-COVER-MB", b["q"] + "|unconditional", "every estimate and refinement query of a level runs unconditionally once the level is known to hold tiles",
                  "a coverage query runs only under a condition, so a bound can keep its three-column estimate: %s" % conditional[:2], ir.loc(b))
         by_t = {}
@@ -298,7 +313,9 @@ def rules(ck, P):
         ck.check(oko, "R-COVER-MB", b["q"] + "|order", "TileBBox::new(z, x0, y0, x1, y1): min/max columns and rows in constructor order", "TileBBox::new arguments are %s" % (roots if nb else None), ir.loc(b))
         flips = [n for n in ir.walk_nodes(b["body"]) if n.get("k") == "mcall" and n.get("name") == "flip_y"]
         in_loop = any(ir.contains(lp, lambda y: y.get("k") == "mcall" and y.get("name") == "flip_y") for lp in ir.walk_nodes(b["body"]) if lp.get("k") == "for")
-        ck.check(len(flips) == 1 and not in_loop and ir.place_str(flips[0]["recv"]) == "bbox_pyramid", "R-COVER-MB", b["q"] + "|flip-once", "the pyramid built from TMS rows is flipped exactly once, after the loop",
+        sl = [n for n in ir.walk_nodes(b["body"]) if n.get("k") == "mcall" and n.get("name") == "set_level_bbox"]
+        same_pyr = bool(sl) and bool(flips) and ir.local_hid(flips[0]["recv"]) is not None and ir.local_hid(flips[0]["recv"]) == ir.local_hid(sl[0]["recv"])
+        ck.check(len(flips) == 1 and not in_loop and same_pyr, "R-COVER-MB", b["q"] + "|flip-once", "the pyramid built from TMS rows is flipped exactly once, after the loop",
                  "row flip of the coverage is applied %d times%s" % (len(flips), " inside the loop" if in_loop else ""), ir.loc(b))
         ld = [b2 for b2 in P.bodies if b2["q"].endswith("mbtiles::reader::MBTilesReader::load_meta_data")]
         if ld:
@@ -317,7 +334,19 @@ def rules(ck, P):
             continue
         short = i["self_adt"].split("::operations::")[-1]
         for b in [x for x in P.bodies if x.get("self_adt") == i["self_adt"] and x["q"].endswith("::build")]:
-            loops = [n for n in ir.walk_nodes(b["body"]) if n.get("k") == "for" and ir.place_str(n["iter"]) in ("sources.iter()", "sources")]
+            sh_ = None
+            for n in ir.walk_nodes(b["body"]):
+                if n.get("k") == "struct" and n.get("q") == i["self_adt"]:
+                    for f in n["fields"]:
+                        if f["name"] == "sources":
+                            sh_ = ir.local_hid(f["e"])
+
+            def over_sources(it):
+                it = ir.strip(it)
+                if it is not None and it.get("k") == "mcall" and it.get("name") == "iter" and not it.get("a"):
+                    it = ir.strip(it["recv"])
+                return sh_ is not None and ir.local_hid(it) == sh_
+            loops = [n for n in ir.walk_nodes(b["body"]) if n.get("k") == "for" and over_sources(n["iter"])]
             inc = [n for n in ir.walk_nodes(b["body"]) if n.get("k") == "mcall" and n.get("name") == "include_bbox_pyramid"]
             oku = False
             if loops and inc and ir.contains(loops[0]["body"], lambda y: y is inc[0]):
